@@ -149,6 +149,12 @@ def jobs(tier, seed):
             js.append({'harness': 'reliable', 'weight': 100,
                        'cfg': {'cc': cc, 'm': m, 'kd': m + 3, 'ka': 2, 'max_drops': 1, 'd1': 1.5, 'd2': 1.5, 'rtt0': 1.0,
                                'horizon': 100000}})
+    # other initial RTT estimates: far below the path RTT (initial RTO 0.5 < RTT 1) and far above it
+    for cc in ('reno', 'cubic'):
+        for rtt0 in (0.25, 4.0):
+            js.append({'harness': 'reliable', 'weight': 100,
+                       'cfg': {'cc': cc, 'm': 4, 'kd': 4, 'ka': 4, 'max_drops': 2, 'd1': 0.5, 'd2': 0.5, 'rtt0': rtt0,
+                               'horizon': 100000}})
     # a path that delays individual packets (reordering data segments and ACKs), with and without one drop
     for cc in ('reno', 'cubic'):
         for m in (3, 4) if tier == 'quick' else (3, 4, 6):
